@@ -276,10 +276,12 @@ def drive_getconf(case):
         return res
     got = w.result
     if case["api"] == "get_conf":
-        if not isinstance(got, dict) or list(got.keys()) != [name]:
+        # one entry for the one option asked for; under which spelling of the name (Tor's or the caller's) it is
+        # filed is not fixed by the statement
+        if not isinstance(got, dict) or len(got) != 1 or str(list(got.keys())[0]).lower() != name.lower():
             res.bad("getconf-keys", "case %r result %r" % (case, got))
             return res
-        got = got[name]
+        got = list(got.values())[0]
     from txtorcon.torcontrolprotocol import DEFAULT_VALUE
     if values is None:
         want = DEFAULT_VALUE
